@@ -485,7 +485,8 @@ class World:
     # ------------------------------------------------------------------ user code: callbacks
     def callbacks(self, kind, pool_ref, raise_end=(), raise_cancel=()):
         """kind: 0 none, 1 plain, 2 coroutine, 3 slow (gated) coroutine, 4 coroutine function produced by a
-        functools.wraps-style adapter around a plain function (its __wrapped__ is not a coroutine function).
+        functools.wraps-style adapter around a plain function (its __wrapped__ is not a coroutine function),
+        5 plain callbacks behind callable objects that are falsy.
         raise_end / raise_cancel: task ids whose callback raises after recording."""
         if kind == 4:
             import functools
@@ -505,6 +506,19 @@ class World:
             async def ccb4(i):
                 return await c2(i)
             return ecb4, ccb4
+        if kind == 5:
+            e1, c1 = self.callbacks(1, pool_ref, raise_end, raise_cancel)
+
+            class Collector(list):
+                """A callable *object* that is falsy (an id recorder that happens to be empty): still a callback."""
+
+                def __init__(self, fn):
+                    super().__init__()
+                    self.fn = fn
+
+                def __call__(self, i):
+                    return self.fn(i)
+            return Collector(e1), Collector(c1)
         w = self
         if kind == 0:
             return None, None
